@@ -49,6 +49,9 @@ def convert(input_image_stream, output_image_stream, width, height, skip):
             c = ord(iotostr(f.read(1)))
             dump(c >> 4)
             dump(c & 15)
+        if width % 2:
+            c = ord(iotostr(f.read(1)))
+            dump(c >> 4)
 
 
 DESCRIPTION = """Convert RS-DOS HRS images to PPM
